@@ -636,6 +636,30 @@ solo: {}", i, k, a.get(k).cloned().unwrap_or_default(), b.get(k).cloned().unwrap
                 }
                 None => *out.stats.probes.entry("session_equals_solo_run".into()).or_insert(0) += 1,
             }
+            // ... and of its solo run in a PRISTINE process: this worker process has executed other runs before, and the
+            // in-process solo run comes after the interleaved one, so process-wide state (a static cache keyed by something
+            // both runs share) poisons both alike and they agree. A child process that has never run anything cannot agree.
+            if diff.is_none() && !trace.world.zipped {
+                match pristine_solo(&solo) {
+                    Some(b2) => {
+                        if let Some(k) = (0..a.len().max(b2.len())).find(|&k| a.get(k) != b2.get(k)) {
+                            let name = a.get(k).or(b2.get(k)).map(|x| x.split(':').next().unwrap_or("").to_string()).unwrap_or_default();
+                            out.violations.push(Violation {
+                                property: trace.property.clone(),
+                                class: "schedule-dependent-output".into(),
+                                sig: format!("{} differs from the solo run of the session in a fresh process", name),
+                                group: "differs from the solo run in a fresh process".into(),
+                                detail: format!("session {} step {}:\nin this process (other sessions and earlier runs in other threads): {}\nsolo, fresh process: {}", i, k, a.get(k).cloned().unwrap_or_default(), b2.get(k).cloned().unwrap_or_default()),
+                                session: i,
+                                step: k,
+                            });
+                            break;
+                        }
+                        *out.stats.probes.entry("session_equals_solo_run_in_fresh_process".into()).or_insert(0) += 1;
+                    }
+                    None => *out.stats.probes.entry("fresh_process_solo_unavailable".into()).or_insert(0) += 1,
+                }
+            }
         }
     }
     // C20, "a pure query": the same history with every braille query replaced by a call that does nothing must leave
@@ -682,6 +706,51 @@ solo: {}", i, k, a.get(k).cloned().unwrap_or_default(), b.get(k).cloned().unwrap
         }
     }
     out
+}
+
+/// `mcsim solo`: read a single-session trace (JSON) from stdin, execute it in this fresh process, print its observed
+/// results as a JSON array of strings (or {"error": ...}).
+pub fn solo_child() -> i32 {
+    use std::io::Read;
+    let mut buf = String::new();
+    if std::io::stdin().read_to_string(&mut buf).is_err() {
+        return 2;
+    }
+    let trace: Trace = match serde_json::from_str(&buf) {
+        Ok(t) => t,
+        Err(e) => {
+            println!("{}", serde_json::json!({"error": format!("bad trace: {}", e)}));
+            return 2;
+        }
+    };
+    let ctx = match crate::make_ctx(false) {
+        Ok(c) => c,
+        Err(e) => {
+            println!("{}", serde_json::json!({"error": e}));
+            return 2;
+        }
+    };
+    let out = execute(&trace, &ctx);
+    if let Some(e) = out.harness_error {
+        println!("{}", serde_json::json!({"error": e}));
+        return 2;
+    }
+    println!("{}", serde_json::json!({"observed": out.observed.first().cloned().unwrap_or_default()}));
+    0
+}
+
+/// observed results of a single-session trace executed by a child process that has never run anything else
+fn pristine_solo(solo: &Trace) -> Option<Vec<String>> {
+    use std::io::Write;
+    use std::process::{Command, Stdio};
+    let exe = std::env::current_exe().ok()?;
+    let mut child = Command::new(exe).arg("solo").stdin(Stdio::piped()).stdout(Stdio::piped()).stderr(Stdio::null()).spawn().ok()?;
+    let text = serde_json::to_string(solo).ok()?;
+    child.stdin.take()?.write_all(text.as_bytes()).ok()?;
+    let o = child.wait_with_output().ok()?;
+    let v: serde_json::Value = serde_json::from_slice(&o.stdout).ok()?;
+    let arr = v.get("observed")?.as_array()?;
+    Some(arr.iter().filter_map(|x| x.as_str().map(String::from)).collect())
 }
 
 // ---------------------------------------------------------------------------------------------------
